@@ -65,26 +65,6 @@ def polars_horizontal_bug_applies(prog, where):
     return has_h and trigger
 
 
-def polars_sortby_bug_applies(prog, where):
-    """D18 (program feature): an unpartitioned order-dependent window function with arrange= on Polars whose
-    frame is joined / unioned later: the Polars optimizer drops the order-restoring sort_by (reproduced in
-    pure Polars 1.44, notes/polars_bugs.py), so values are paired with the wrong rows."""
-    from . import kf
-
-    known = {st["out"] for st in prog["steps"]}
-    idxs = kf.ancestors(prog, where) if (isinstance(where, int) and where < len(prog["steps"])) or where in known else list(range(len(prog["steps"])))
-    seen = False
-    for i in idxs:
-        st = prog["steps"][i]
-        if st["verb"] == "mutate":
-            for n in kf.walk(st["kw"]):
-                if n.get("k") == "fn" and n["op"] in ("cum_sum", "shift", "row_number") and n.get("arr") and not n.get("pb"):
-                    seen = True
-        if seen and st["verb"] in ("join", "union"):
-            return True
-    return False
-
-
 def has_constant_condition(prog):
     from . import kf
 
@@ -418,9 +398,6 @@ def run_program(prog, backends=("pol", "sqlite"), opts=None, be_cache=None) -> O
     for f in out.findings:
         if f.backend == "pol" and f.kind.startswith(("value:pol", "exc:pol")) and polars_horizontal_bug_applies(prog, f.step):
             out.excluded["pol"] = "D16"
-            continue
-        if f.backend == "pol" and f.kind.startswith("value:pol") and polars_sortby_bug_applies(prog, f.step):
-            out.excluded["pol"] = "D18"
             continue
         kept.append(f)
     out.findings = kept
